@@ -43,6 +43,12 @@ CHECKS = {
  "C16": dict(cat="exploration", design="§3 C16", technique="exhaustive enumeration of values x encodings and of every single-character edit of every valid encoding, oracle = independently written strict codec",
    text="Every boundary integer / boolean spelling / byte length 0..33 / address form / utxo ref in every documented encoding must invert; every single-character edit of every valid string encoding and 36 JSON values of every kind, against all 5 argument types, must be accepted exactly when an independently written strict decoder (own hex, base64, bech32) says the text denotes the returned value; requests with 0..3 declared parameters in all 2^n args/env splits, undeclared extras and 12 envelope variants must yield exactly the declared subset or an error, never a panic.",
    note="Strict codec embodies my reading of the documented encodings (signed decimal strings, one optional 0x, bech32 with any prefix); multi-character corruptions only via the JSON-kind list."),
+ "C17": dict(cat="exploration", design="§3 C17", technique="deviation-bounded exhaustive enumeration of identifier spellings / usage patterns, each program compiled by the real tx3c binary and read back",
+   text="Every corpus program and every execution with <= 2 (thorough 3) deviations of a spelling generator (5 spellings for parameters, parties and env fields; unused / used / colliding third parameter; env usage; policy) is compiled with `tx3c build --emit tii`; the TII must list exactly the program's transactions, its embedded IR must decode to the canonical form of in-process lowering, the keys the IR requires must be declared with identical spelling and without collisions, and a request built from exactly the declared keys must not be answered with MissingTxArg.",
+   note="The binary is rebuilt from /repo by ./check; derived policy-script parameters are reported under a separate signature."),
+ "C18": dict(cat="exploration", design="§3 C18", technique="repetition until every observed-container iteration order is covered (in-process) plus fresh processes; oracle = byte equality",
+   text="For every corpus program, directive-bearing bases and spelling-generator programs, parse+analyze+lower+to_bytes is repeated in one process at least 20 times and until every iteration order of every directive field map (k! for k <= 4) has been observed; three fresh tx3c processes emit the TII; all encodings and files must be byte-identical and the embedded IR equal to the in-process encoding.",
+   note="Hash-map order is observed, not chosen (std's hasher keys are per instance); coverage of orders is measured and reported; publish directives (5 fields) require 24 distinct orders."),
 }
 PENDING = {}
 
